@@ -46,6 +46,20 @@ def run(ctx: RuleContext):
     ctx.sub(c06.check_shared_writes, ctx, r, cg, "C12.4", "C12.4")
     ctx.sub(check_hook_install_writes, ctx, r, "C12.4")
     ctx.sub(check_caches, ctx, r, cg, "C12.5")
+    ctx.reuse("C12.6", check_failed_checks_leave_nothing, ctx, r)
+
+
+def check_failed_checks_leave_nothing(ctx, r):
+    """C12.6: 'never on earlier failing or raising checks': both check sites roll the bindings back on
+    every failing exit (rollback typestate C04.1/C04.2) and the restore puts every entry back (C04.4)."""
+    from . import c04
+
+    sites = c04.find_sites(ctx, r)
+    need(len(sites) >= 2, "C12.6: the two rollback sites (array check, PyTree check) were not found")
+    for s_ in sites:
+        c04.check_site(ctx, r, s_)
+    stack_tl, stack_attr, _ = c05.locate_stack(r)
+    c05._check_set(ctx, r, r.set, stack_tl, stack_attr, "C12.6")
 
 
 # ------------------------------------------------------------------------ C12.3
